@@ -59,12 +59,17 @@ class C11(Prop):
         gen_raises = profile == "faults" and s.chance(1, 3, "gen-raises")
         cancel_consumer = profile == "faults" and not gen_raises and s.chance(1, 2, "cancel-consumer")
         break_after = s.draw(max(1, n_items), "break-after") if end.startswith("break") else None
+        # a second, simple stream created in the same scope and consumed before or after the first one
+        second = (mode in ("same-scope", "outside-scope") and end == "exhaust" and not cancel_consumer
+                  and s.chance(1, 3, "second-stream"))
+        second_first = bool(second and s.draw(2, "second-first"))
         def item_value(i):
             # falsy and None items are legitimate elements of a stream
             return (("item", i), None, 0, False, "")[item_kinds[i]]
 
         sim.program = {"mode": mode, "end": end, "items": n_items, "item_kinds": item_kinds, "steps": steps, "gen_raises": gen_raises,
-                       "cancel_consumer": cancel_consumer, "break_after": break_after}
+                       "cancel_consumer": cancel_consumer, "break_after": break_after, "second_stream": int(second),
+                       "second_consumed_first": int(second_first)}
         if mode != "same-scope" or end in ("break-drop", "never-started") or gen_raises or cancel_consumer:
             sim.nontrivial = True
 
@@ -73,6 +78,7 @@ class C11(Prop):
         b_state, b_t2 = make_state(0, 3), make_state(2, 4)
         gen_exc = Injected("gen")
         rec_values = []
+        nested_values = []
         st = {"received": [], "outcome": None, "gen_started": False, "gen_closed": False, "completion": [],
               "a_left_seq": None, "stream_done_seq": None, "logn": 0, "consumer_task": None, "in_fetch": False,
               "gen_cancelled": False}
@@ -152,6 +158,9 @@ class C11(Prop):
                             inner = make_state(0, 50 + i)
                             with ctx.scope("gen-nested", inner):
                                 gen_probe("nested sync scope", extra=inner)
+                                nv = 500 + len(nested_values)
+                                nested_values.append(nv)
+                                ctx.record(M1(items=(nv,)))
                             gen_probe("after nested sync scope")
                         else:
                             got = [x async for x in ctx.stream(inner_gen)]
@@ -185,6 +194,26 @@ class C11(Prop):
                     sim.report(rule, f"consumer ({mode}) {where}: its {key} changed from {b!r} to {n!r}",
                                **feat(rule.startswith("R4")))
                     return
+
+        async def gen2():
+            ctx.record(M1(items=(200,)), merge=lambda l, r: M1(items=(*l.items, *r.items)))
+            yield 200
+            await sim.pause("gen2")
+            yield 201
+
+        async def consume2(stream2):
+            got = []
+            try:
+                async for x in stream2:
+                    got.append(x)
+            except SimStop:
+                raise
+            except BaseException as exc:  # noqa: BLE001
+                sim.report("R1-second-stream", f"second stream of the same scope ended with {exc!r} after {got}", kind=type(exc).__name__, **feat())
+                return
+            st["second_done_seq"] = sim.event("second-stream-done")
+            if got != [200, 201]:
+                sim.report("R1-second-stream", f"second stream delivered {got}", kind="items", **feat())
 
         async def consume(stream):
             before = consumer_obs()
@@ -236,8 +265,14 @@ class C11(Prop):
 
             async def in_a():
                 holder["stream"] = ctx.stream(gen, "tag")
+                if second:
+                    holder["stream2"] = ctx.stream(gen2)
                 if mode == "same-scope":
+                    if second and second_first:
+                        await consume2(holder.pop("stream2"))
                     await consume(holder.pop("stream"))
+                    if second and not second_first:
+                        await consume2(holder.pop("stream2"))
                 elif mode == "other-scope":
                     async with ctx.scope("B", b_state, b_t2):
                         await consume(holder.pop("stream"))
@@ -270,7 +305,11 @@ class C11(Prop):
             finally:
                 st["a_left_seq"] = sim.event("A-left")
             if mode == "outside-scope":
+                if second and second_first:
+                    await consume2(holder.pop("stream2"))
                 await consume(holder.pop("stream"))
+                if second and not second_first:
+                    await consume2(holder.pop("stream2"))
             holder.clear()
             if end in ("break-drop", "never-started"):
                 # the reference is dropped; the collector runs at a scheduler-chosen later instant
@@ -313,13 +352,17 @@ class C11(Prop):
             seq, metrics = st["completion"][0]
             if st["gen_started"] and not st["gen_closed"]:
                 sim.report_post("R5-completion-early", "creating scope completed while the stream body was still open", **feat())
+            elif second and st.get("second_done_seq") is not None and seq < st["second_done_seq"]:
+                sim.report_post("R5-completion-early", "creating scope completed before its second stream was exhausted", second=1, **feat())
             elif kind == "end" and mode in ("same-scope",):
                 merged = metrics.metrics(merge=lambda cur, new: new if not isinstance(cur, M1) or not isinstance(new, M1)
                                          else M1(items=(*cur.items, *new.items)))
                 got = [m for m in merged if isinstance(m, M1)]
                 items = list(got[0].items) if got else []
-                if items != rec_values:
-                    sim.report_post("R5-metrics", f"merged metrics of the creating scope hold {items}, generator recorded {rec_values}", **feat())
+                want_items = [*rec_values, *nested_values] + ([200] if second else [])
+                if items != want_items:
+                    sim.report_post("R5-metrics", f"merged metrics of the creating scope hold {items}, generator recorded {rec_values} and, in "
+                                    f"nested scopes, {nested_values}" + (" and the second stream 200" if second else ""), **feat())
         else:
             if kind in ("end", "raised") or (kind == "break" and end == "break-aclose") or started_and_finished:
                 sim.report_post("R5-completion-never", f"stream finished ({kind}) and scope A was left but A's completion never fired", **feat())
